@@ -297,7 +297,9 @@ class VarzAggregator(object):
 
     agg = defaultdict(dict)
     now = LOW_RESOLUTION_TIME_SOURCE.now
-    for metric in varz.keys():
+    # Snapshot the metric names: the loop yields (gevent.sleep(0)) and other
+    # greenlets may record the first value of a new metric meanwhile.
+    for metric in list(varz.keys()):
       if metric not in metrics:
         continue
       varz_type = metrics[metric]
